@@ -1,3 +1,4 @@
+import Pocket.Lemmas.FromSourcePreds
 import Pocket.Lemmas.FromSourceConsts
 import Pocket.Lemmas.Total
 import Pocket.Lemmas.Digits
@@ -275,5 +276,9 @@ theorem filter_layout_from_source :
   Pocket.filter_layout_from_source
 
 theorem tag_table_from_source : Src.startTagsLen = 52 := Pocket.parser_bounds_from_source.2
+
+/-- which members are tag constraints: the test on the byte after `#` in `parse_json_filter`, as the source spells it today,
+is the model's "single ASCII letter" -/
+theorem tag_member_letter_from_source (b : Nat) : Src.tagMemberLetter b = isLetter b := Pocket.tag_member_letter_from_source b
 
 end Pocket.C07
